@@ -109,6 +109,9 @@ def cases(seed, tier):
         d["tol"] = rng.choice(["tight", "tight", "tight", "default"])
         d["special"] = rng.choice([None] * 10 + ["zeroB", "zerocol_cot", "unusedA", "frozenA", "frozenBE", "realE"])
         d["kappa"] = rng.choice([3.0, 10.0, 30.0])
+        # loss linear in X (constant cotangent) / nonlinear in X (the cotangent depends on the leaves: second order then goes through the
+        # backward solve's dependence on grad_x) / inputs that depend on one another through autograd history / both
+        d["variant"] = [None, None, None, "nlloss", "chained", "nlloss_chained"][i % 6]
         _constrain(d, rng)
         out.append(d)
     # directed: gmres as forward and/or backward method on operators where it terminates (<= 3 distinct eigenvalues)
@@ -678,6 +681,30 @@ def run_case(desc):
         leaves[k] = leaves[k].detach()
     names = [k for k in leaves if leaves[k].requires_grad]
     tens = [leaves[k] for k in names]
+    variant = desc.get("variant") or ""
+    # `eff`: the tensors handed to the operators and to solve.  "chained": every one is its leaf times a (positive, real) scalar function of the
+    # previous leaf, i.e. the inputs of solve depend on one another through autograd history (structure - Hermitian, SPD - is preserved)
+    eff = leaves
+    if "chained" in variant:
+        eff = collections.OrderedDict()
+        prev = None
+        for k, v in leaves.items():
+            eff[k] = v * (1.0 + 0.03 * torch.tanh(prev.real.mean() * 3.0 + 0.5)) if (prev is not None and v.requires_grad) else v
+            if v.requires_grad:
+                prev = v
+        with torch.no_grad():
+            Ae = a.dense(eff)
+            if emode in ("E", "EM"):
+                Mde = m.dense(eff) if (m is not None and emode == "EM") else torch.eye(n, dtype=dt)
+                Se = Ae.unsqueeze(-3) - eff["E"].reshape(*eff["E"].shape, 1, 1) * Mde.unsqueeze(-3)
+            else:
+                Se = Ae
+            sve = torch.linalg.svdvals(Se)
+            kap = max(kap, float((sve[..., 0] / sve[..., -1]).max()))
+        if not (kap <= KMAX * 1.05):
+            obs.skip("generator: cond %.1f of the chained system above the stated bound" % kap)
+            return obs.result()
+        obs.count("chained_input_cases")
 
     # ---------------- options
     tight = desc["tol"] == "tight"
@@ -710,7 +737,8 @@ def run_case(desc):
     else:
         raise HarnessBug("unknown backward setting %s" % bck)
 
-    cfg = "%s:%s:%s%s%s" % (fwd or "auto", bck, emode, ":realE" if real_e else "", ":autoherm" if akind == "dense_autoherm" else "")
+    cfg = "%s:%s:%s%s%s%s" % (fwd or "auto", bck, emode, ":realE" if real_e else "", ":autoherm" if akind == "dense_autoherm" else "",
+                              (":" + desc["variant"]) if desc.get("variant") else "")
     if real_e:
         obs.count("real_E_in_complex_system")
     obs.note(kappa=kap, complexE=complexE, leaves={k: list(v.shape) for k, v in leaves.items()}, full_batch=list(full_b), frozen=frozen)
@@ -725,19 +753,19 @@ def run_case(desc):
     sspy = SolverSpy()
     with WarnLog() as wl, sspy:
         # ------------ reference from the same leaves
-        Ad = a.dense(leaves)
-        Mdd = m.dense(leaves) if (m is not None and emode == "EM") else None
-        Xref = _reference(Ad, Mdd, leaves["B"], leaves.get("E"), full_b, n, ncols, dt)
+        Ad = a.dense(eff)
+        Mdd = m.dense(eff) if (m is not None and emode == "EM") else None
+        Xref = _reference(Ad, Mdd, eff["B"], eff.get("E"), full_b, n, ncols, dt)
         # ------------ the monitored forward call
         try:
-            Aop = a.make(leaves)
-            Mop = m.make(leaves) if m is not None else None
+            Aop = a.make(eff)
+            Mop = m.make(eff) if m is not None else None
         except Exception as e:  # noqa
             return fail("construct", e)
         for k in list(counter):
             counter[k] = 0
         try:
-            X = solve(Aop, leaves["B"], leaves.get("E"), Mop, bck_options=bopts, method=fwd, **fopts)
+            X = solve(Aop, eff["B"], eff.get("E"), Mop, bck_options=bopts, method=fwd, **fopts)
         except Exception as e:  # noqa
             return fail("forward", e)
         fwd_products = sum(counter.values())
@@ -766,11 +794,18 @@ def run_case(desc):
         if desc["special"] == "zerocol_cot" and ncols > 1:
             C[..., 0] = 0
         D = [torch.randn(t.shape, dtype=t.dtype, generator=tgen) for t in tens]
-        Lx = _inner(C, X)
-        Lr = _inner(C, Xref)
+        if "nlloss" in variant:
+            Wq = torch.rand(want_shape, dtype=rdt, generator=tgen)
+            scl = 0.5 / (1.0 + float(Xref.detach().abs().max()))
+            lossf = lambda x: _inner(C, x) + scl * (Wq * (x.conj() * x).real).sum()     # noqa: E731
+            obs.count("nonlinear_loss_cases")
+        else:
+            lossf = lambda x: _inner(C, x)                                              # noqa: E731
+        Lx = lossf(X)
+        Lr = lossf(Xref)
         gref = torch.autograd.grad(Lr, tens, create_graph=True, allow_unused=True)
         L2r = sum(_inner(Di, gi) for Di, gi in zip(D, gref) if gi is not None and gi.requires_grad)
-        ggref = torch.autograd.grad(L2r, tens, allow_unused=True) if isinstance(L2r, torch.Tensor) else [None] * len(tens)
+        ggref = torch.autograd.grad(L2r, tens, allow_unused=True, retain_graph=True) if isinstance(L2r, torch.Tensor) else [None] * len(tens)
 
         # ------------ phase 1: backward not recorded
         sspy.phase = "first_nograph"
